@@ -11,6 +11,7 @@ import NetflowModel.Findings
 import NetflowModel.Cost
 import NetflowModel.Fast
 import NetflowModel.CostPrealloc
+import NetflowModel.CostWork
 import NetflowModel.Ctl
 import NetflowModel.GeneratedCtl
 import NetflowModel.ExportProg
@@ -217,8 +218,17 @@ def handleParse (s : Sess) (i : Nat) (op impl : Json) (line2 : Option Json := no
               a.state.ipT.any (fun e => e.2.fields.any fun f => f.len == 65535) || a.state.ipO.any (fun e => e.2.fields.any fun f => f.len == 65535) ||
               before.ipT.any (fun e => e.2.fields.any fun f => f.len == 65535) || before.ipO.any (fun e => e.2.fields.any fun f => f.len == 65535)
             then ["ipfix-varlen-field"] else []) ++
-          (if before.ipT.any (fun e => e.2.fields.any fun f => f.len == 0) || before.ipO.any (fun e => e.2.fields.any fun f => f.len == 0) ||
-              before.v9T.any (fun e => e.2.fields.any fun f => f.len == 0) then ["c15-zero-length-fields"] else [])
+          (if (before.ipT.any (fun e => e.2.fields.any fun f => f.len == 0) || before.ipO.any (fun e => e.2.fields.any fun f => f.len == 0) ||
+              before.v9T.any (fun e => e.2.fields.any fun f => f.len == 0)) &&
+              -- the recorded finding is what zero-length fields do to ONE decode attempt per record: a template of k such fields costs k
+              -- operations and k entries per record whatever the record's bytes.  It does not excuse work the model does not do: the
+              -- allocation must stay within the property's bound plus the modelled data-path work (`Cost.workOf`, CostWork.lean: decode
+              -- attempts of the record loops as the code runs them now; Props/C15c.lean bounds it by the records returned plus one
+              -- template's worth per flowset).  A loop that retries, or clones the template per iteration, is outside the class.
+              (!wants op "alloc" ||
+                (let w := 2048 * Cost.workOf c before buf
+                 Cost.allocBounded 64 16 (131072 + 2 * pre + w) buf a.pkts alloc && Cost.allocBounded 64 16 (131072 + 2 * pre + w) buf a.pkts peak))
+            then ["c15-zero-length-fields"] else [])
         let unkNow : Bool := match line2 with
           | some j2 => (match (fromJson? j2 : Except String ParseAns) with
             | .ok a2 => a.state.ipT != a2.state.ipT || a.state.ipO != a2.state.ipO
